@@ -276,6 +276,7 @@ type command struct {
 	// ackedVariant: 0 never acknowledged, 1 acknowledged with the original
 	// content, 2 acknowledged with the deliberately different content
 	ackedVariant int
+	attempted    [2]bool // content variant (original / conflicting) submitted at least once
 }
 
 type opResult struct {
@@ -302,6 +303,7 @@ type opResult struct {
 	viewsAtStart map[ch.NodeID]replicaView
 	exactRetry  bool
 	conflicting bool
+	firstAttempt bool // first submission of this (command, content variant) anywhere
 }
 
 type chanState struct {
